@@ -395,18 +395,47 @@ func c09Exec(c fw.Case) *fw.Result {
 		}
 	}
 
-	// pass 3: real stop histories for a sample of k: Scan×k, Close, read offsets, resume
-	for _, kk := range []int{0, 1, len(want) / 2, len(want) - 1, len(want)} {
+	// pass 3: real stop histories for a sample of k: Scan×k, stop, read offsets, resume. The
+	// stop is Close, or cancelling the context followed by one more Scan (which must return
+	// false) — the way a `for s.Scan() { …; cancel() }` loop ends. The sample includes stops
+	// right after the last object of a block with the decoders given time to run ahead.
+	ks := []int{0, 1, len(want) / 2, len(want) - 1, len(want)}
+	blockEnds := 0
+	for i := 0; i+1 < len(want) && blockEnds < 3; i++ {
+		if want[i].Block != want[i+1].Block {
+			ks = append(ks, i+1)
+			blockEnds++
+		}
+	}
+	for ki, kk := range ks {
 		if kk < 0 || kk > len(want) {
 			continue
 		}
-		s := osmpbf.New(context.Background(), mon.NewReader(data), procs)
+		byCancel := ki%2 == 1 || ki >= 5
+		ctx, cancel := context.WithCancel(context.Background())
+		s := osmpbf.New(ctx, mon.NewReader(data), procs)
 		flt.apply(s)
 		n := 0
 		for n < kk && s.Scan() {
 			n++
 		}
+		if byCancel && n == kk {
+			if ki >= 5 {
+				time.Sleep(3 * time.Millisecond) // let the pipeline queue the next block
+			}
+			cancel()
+			if s.Scan() {
+				res.Violatef(key+"/scan-after-cancel", "Scan returned true after the context had been cancelled (k=%d)", kk)
+			}
+			if kk > 0 {
+				bi := want[kk-1].Block
+				if f0, p0 := s.FullyScannedBytes(), s.PreviousFullyScannedBytes(); f0 != lay.Start[bi] || p0 != prevOf(bi) {
+					res.Violatef(key+"/stop-cancel", "Scan×%d, cancel, Scan: offsets %d/%d, want %d/%d (the block of the last returned object)", kk, f0, p0, lay.Start[bi], prevOf(bi))
+				}
+			}
+		}
 		s.Close()
+		cancel()
 		full, prev := s.FullyScannedBytes(), s.PreviousFullyScannedBytes()
 		if n == kk && kk > 0 {
 			bi := want[kk-1].Block
@@ -474,7 +503,7 @@ func init() {
 	fw.Register(&fw.Prop{
 		ID:    "C09",
 		Level: "fault_enumeration",
-		Rule: "PRNG files of 4-15 blocks (<=200 objects, an eighth of them with one block of 8000-16001 nodes); every stop position k=0..N of each file is observed (offsets read after every Scan), a resume scan is run for every distinct reported offset and for the previous offset, plus real Scan×k→Close→resume histories for k in {0,1,N/2,N-1,N}; skip masks that create fully empty blocks, in half of the cases combined with filter callbacks rejecting by id (every 2nd, 3rd, 5th, or every element), also on header-less and big-block files; decoders {1,2,4,16}; Close -> Seek -> new scanner on one shared-position handle with a slow medium; a virtual 4.1 GiB stream (offsets beyond 32 bits). " +
+		Rule: "PRNG files of 4-15 blocks (<=200 objects, an eighth of them with one block of 8000-16001 nodes); every stop position k=0..N of each file is observed (offsets read after every Scan), a resume scan is run for every distinct reported offset and for the previous offset, plus real stop histories (Close, or cancel followed by one more Scan) and resumes for k in {0,1,N/2,N-1,N} and right after the last object of up to three blocks; skip masks that create fully empty blocks, in half of the cases combined with filter callbacks rejecting by id (every 2nd, 3rd, 5th, or every element), also on header-less and big-block files; decoders {1,2,4,16}; Close -> Seek -> new scanner on one shared-position handle with a slow medium; a virtual 4.1 GiB stream (offsets beyond 32 bits). " +
 			"Signature = (decoders, skip mask, file has empty blocks, header present, block-count class).",
 		Assumptions: []string{
 			"after the terminal Scan()==false trailing fully-skipped blocks may have advanced the offset, so offset equalities are asserted only after a Scan that returned true (and for k=0); for the terminal position only the resume consequence is asserted",
